@@ -4,7 +4,11 @@
     list of creating/started reports, complete reports, unschedule/deactivation updates and billing heartbeats with any
     times and reasons, in any order and multiplicity — to a freshly inserted attempt (all four columns NULL), every
     request passing through the BEFORE UPDATE clamp.  [billed4] is max(rollup - start, 0), 0 if either is NULL.
-    The clamp is [Model.clamp4]; C03_trigger_is_model ties it to the trigger text of the current source. *)
+    The clamp is [Model.clamp4] = the trigger attempts_before_update as redefined by migration
+    124-attempts-before-update-timeout-after-reason.sql; C03_trigger_is_model ties it to the trigger text of the current
+    source.  [request_is_timeout r]: the request carries the reason activation_timeout; [marks_timeout o r]: it does and
+    the row carries that reason after it (a timeout request that arrives after the attempt has ended, with an end that is
+    not earlier, is ignored like every late end). *)
 From HailV Require Import Common.Prelude BatchDB.Model BatchDB.Clamp BatchDB.ClampSeq BatchDB.ClampTie.
 From HailG Require C03.ClampGen.
 Open Scope Z_scope.
@@ -25,53 +29,62 @@ Theorem C03_bounded_after_end : forall rs e, t_end (reach rs) = Some e ->
 Proof. exact seq_bounded. Qed.
 Print Assumptions C03_bounded_after_end.
 
-(** The row invariant behind it: the rollup time never lies after the end, and end time and end reason are set together. *)
+(** The row invariant behind it: the rollup time never lies after the end, end time and end reason are set together, and
+    an attempt whose reason is activation_timeout has no start time. *)
 Theorem C03_row_invariant : forall rs,
   (forall r e, t_rollup (reach rs) = Some r -> t_end (reach rs) = Some e -> r <= e) /\
-  (t_end (reach rs) = None <-> t_reason (reach rs) = None).
+  (t_end (reach rs) = None <-> t_reason (reach rs) = None) /\
+  (t_reason (reach rs) = Some REASON_ACTIVATION_TIMEOUT -> t_start (reach rs) = None).
 Proof. exact reach_inv. Qed.
 Print Assumptions C03_row_invariant.
 
-(** A report that marks an activation timeout bills nothing. *)
-Theorem C03_timeout_bills_nothing : forall rs r, request_is_timeout r = true -> billed4 (clamp_apply (reach rs) r) = 0.
-Proof. intros rs r; apply timeout_bills_nothing. Qed.
+(** An activation timeout bills nothing: an attempt that carries that reason — after ANY sequence of reports, in
+    particular whatever is reported after the timeout — has no start and no billed time ... *)
+Theorem C03_timeout_bills_nothing : forall rs, t_reason (reach rs) = Some REASON_ACTIVATION_TIMEOUT ->
+  t_start (reach rs) = None /\ billed4 (reach rs) = 0.
+Proof. exact seq_timeout_bills_nothing. Qed.
 Print Assumptions C03_timeout_bills_nothing.
 
-(** FULL STATEMENT (refuted below): for every [rs] and [r], billed time does not decrease across the report [r] unless [r]
-    marks an activation timeout or leaves the attempt with an end before the time already billed.
-    PARTIAL: proved for attempts whose stored reason is not activation_timeout (in particular for every sequence in which
-    no report marks an activation timeout, C03_guard_without_timeouts). *)
-Theorem C03_monotone_partial : forall rs r,
-  t_reason (reach rs) <> Some REASON_ACTIVATION_TIMEOUT ->
+(** ... so a report that marks the timeout bills nothing, and a timeout request on an attempt that has not ended always
+    marks it. *)
+Theorem C03_marks_timeout_bills_nothing : forall rs r, marks_timeout (reach rs) r -> billed4 (clamp_apply (reach rs) r) = 0.
+Proof. exact seq_marks_timeout_bills_nothing. Qed.
+Print Assumptions C03_marks_timeout_bills_nothing.
+
+Theorem C03_timeout_request_on_open_attempt : forall rs r,
+  t_reason (reach rs) = None -> request_is_timeout r = true ->
+  t_reason (clamp_apply (reach rs) r) = Some REASON_ACTIVATION_TIMEOUT /\ billed4 (clamp_apply (reach rs) r) = 0.
+Proof. exact seq_timeout_request_on_open_attempt. Qed.
+Print Assumptions C03_timeout_request_on_open_attempt.
+
+(** FULL STATEMENT: for every sequence [rs] and every report [r], billed time does not decrease across [r] unless [r] marks
+    an activation timeout or leaves the attempt with an end before the time already billed (the end is corrected to an
+    earlier time). *)
+Theorem C03_monotone : forall rs r,
   billed4 (clamp_apply (reach rs) r) < billed4 (reach rs) ->
-  request_is_timeout r = true \/
+  marks_timeout (reach rs) r \/
   (exists e ro, t_end (clamp_apply (reach rs) r) = Some e /\ t_rollup (reach rs) = Some ro /\ e < ro).
 Proof. exact seq_monotone. Qed.
-Print Assumptions C03_monotone_partial.
+Print Assumptions C03_monotone.
 
-Theorem C03_monotone_refuted :
-  exists rs r, billed4 (clamp_apply (reach rs) r) < billed4 (reach rs) /\ request_is_timeout r = false /\
-    ~ (exists e ro, t_end (clamp_apply (reach rs) r) = Some e /\ t_rollup (reach rs) = Some ro /\ e < ro).
-Proof. exact seq_monotone_refuted. Qed.
-Print Assumptions C03_monotone_refuted.
-
-(** FULL STATEMENT (refuted below): the start time only ever moves earlier; only a report that marks an activation timeout
-    erases it.  PARTIAL: same guard. *)
-Theorem C03_start_only_earlier_partial : forall rs r s,
-  t_reason (reach rs) <> Some REASON_ACTIVATION_TIMEOUT -> t_start (reach rs) = Some s ->
+(** FULL STATEMENT: the start time only ever moves earlier; only a report that marks an activation timeout erases it. *)
+Theorem C03_start_only_earlier : forall rs r s,
+  t_start (reach rs) = Some s ->
   match t_start (clamp_apply (reach rs) r) with
   | Some s' => s' <= s
-  | None => request_is_timeout r = true
+  | None => marks_timeout (reach rs) r
   end.
 Proof. exact seq_start_only_earlier. Qed.
-Print Assumptions C03_start_only_earlier_partial.
+Print Assumptions C03_start_only_earlier.
 
-Theorem C03_start_only_earlier_refuted :
-  exists rs r s, t_start (reach rs) = Some s /\ request_is_timeout r = false /\ t_start (clamp_apply (reach rs) r) = None.
-Proof. exact seq_start_only_earlier_refuted. Qed.
-Print Assumptions C03_start_only_earlier_refuted.
+(** ... and over any number of further reports none of which carries the timeout reason the start stays set and not later. *)
+Theorem C03_start_only_earlier_ever : forall rs1 rs2 s, t_start (reach rs1) = Some s ->
+  forallb (fun r => negb (request_is_timeout r)) rs2 = true ->
+  exists s', t_start (reach (rs1 ++ rs2)) = Some s' /\ s' <= s.
+Proof. exact seq_start_only_earlier_ever. Qed.
+Print Assumptions C03_start_only_earlier_ever.
 
-(** The guard of the two partial theorems holds after every sequence in which no report marks an activation timeout. *)
+(** The reason activation_timeout only comes from a request that carries it. *)
 Theorem C03_guard_without_timeouts : forall rs,
   forallb (fun r => negb (request_is_timeout r)) rs = true -> t_reason (reach rs) <> Some REASON_ACTIVATION_TIMEOUT.
 Proof. exact seq_guard_without_timeouts. Qed.
@@ -84,8 +97,28 @@ Theorem C03_end_only_earlier : forall rs r, t_reason (reach rs) <> None ->
 Proof. exact seq_end_only_earlier. Qed.
 Print Assumptions C03_end_only_earlier.
 
+(** ... more precisely: end time and reason are exactly kept unless the end is replaced by a strictly earlier one. *)
+Theorem C03_end_kept_or_earlier : forall rs r e, t_end (reach rs) = Some e ->
+  (t_end (clamp_apply (reach rs) r) = Some e /\ t_reason (clamp_apply (reach rs) r) = t_reason (reach rs)) \/
+  (exists e', t_end (clamp_apply (reach rs) r) = Some e' /\ e' < e).
+Proof. exact seq_end_kept_or_earlier. Qed.
+Print Assumptions C03_end_kept_or_earlier.
+
 (** ... and so does any number of later reports. *)
 Theorem C03_end_only_earlier_ever : forall rs1 rs2 e, t_end (reach rs1) = Some e ->
   exists e', t_end (reach (rs1 ++ rs2)) = Some e' /\ e' <= e.
 Proof. exact seq_end_only_earlier_ever. Qed.
 Print Assumptions C03_end_only_earlier_ever.
+
+(** REGRESSION WITNESS: with the block order the trigger had before migration 124 ([clamp4_unfixed], the definition of
+    067-add-real-time-billing.sql: timeout block before the end/reason block) there is a sequence of the four request
+    shapes after which a timed-out attempt is billed, and a plain heartbeat then decreases the billed time and erases the
+    start. *)
+Theorem C03_unfixed_trigger_refuted :
+  exists rs r s,
+    t_reason (reach_unfixed rs) = Some REASON_ACTIVATION_TIMEOUT /\ 0 < billed4 (reach_unfixed rs) /\
+    billed4 (clamp_apply_unfixed (reach_unfixed rs) r) < billed4 (reach_unfixed rs) /\ request_is_timeout r = false /\
+    ~ (exists e ro, t_end (clamp_apply_unfixed (reach_unfixed rs) r) = Some e /\ t_rollup (reach_unfixed rs) = Some ro /\ e < ro) /\
+    t_start (reach_unfixed rs) = Some s /\ t_start (clamp_apply_unfixed (reach_unfixed rs) r) = None.
+Proof. exact seq_unfixed_trigger_refuted. Qed.
+Print Assumptions C03_unfixed_trigger_refuted.
